@@ -62,6 +62,7 @@
 #include <set>
 #include <algorithm>
 #include <unordered_set>
+#include <deque>
 #include <functional>
 
 using namespace drv;
@@ -640,6 +641,135 @@ template<class AIO> static void add_frag_cells(const Mode *modes, size_t nmodes,
 	}
 }
 
+
+// ---------------------------------------------------------------- part allfrag: ALL fragmentations, explicit-state search
+// Events on the receiver of one link: F k = the relay hands over the next k octets of the wire (any k from 1 to all that is
+// left) and the receiver makes ONE Receive call; P = one Receive call without new octets.  Consecutive hand-overs without a
+// call in between only add up in the pipe, so every schedule of "the transport splits, coalesces or delays the byte stream"
+// against "the application polls" is a word over {F k, P}.  Breadth-first search over the reachable (receiver state, offset)
+// pairs; the receiver is not copyable, so a state is the shortest event history that reaches it, replayed on a fresh
+// receiver and fresh pipes; states are merged by the canonical dump of the receiver's private fields (Rx::state, including
+// the scheduler cursors and the number of octets waiting in the pipe) plus the offset.  Merging is sound as long as that dump
+// determines the future behaviour (cipher and MAC handles advance with the number of octets consumed, which the dump fixes
+// together with the offset); a missed field could only lose coverage, never raise an alarm.  Every transition is one
+// execution of the real Receive; the oracle is evaluated after every transition (nothing delivered early, changed, spurious
+// or with a wrong sender index) and, once the wire is used up, after quiescence (nothing lost).
+template<class AIO> static void allfrag_cell(const Cell &C, const Mode &m, size_t sched, const Exchange &ex, const WireImg &w)
+{
+	const size_t len = w.bytes.size();
+	const std::string kbase = std::string("/") + Tr<AIO>::name() + "/" + m.name;
+	struct Node { std::vector<uint32_t> hist; size_t off; };
+	std::unordered_set<uint64_t> seen;
+	std::deque<Node> frontier;
+	uint64_t transitions = 0, terminals = 0, maxhist = 0;
+	bool complete = true;
+	auto histstr = [](const std::vector<uint32_t> &h) { std::string o; for (size_t i = 0; i < h.size(); i++) o += (i ? " " : "") + (h[i] ? "F" + str(h[i]) : std::string("P")); return o; };
+	auto judge = [&](Rx<AIO> &rx, const std::vector<uint32_t> &hist, bool final) {
+		std::string kind;
+		for (size_t i = 0; i < rx.got.size() && i < ex.size(); i++)
+			if (rx.got[i].at_written[0] < w.item_end[i]) kind = "frag-early";
+		if (kind.empty() && rx.got.size() > ex.size()) kind = "frag-spurious";
+		for (size_t i = 0; i < rx.got.size() && i < ex.size() && kind.empty(); i++)
+		{
+			if (rx.got[i].vals != ex[i].vals) kind = "frag-changed";
+			else if (rx.got[i].from != 0) kind = "frag-sender-index";
+		}
+		if (kind.empty() && final && rx.got.size() < ex.size()) kind = "frag-lost";
+		if (!kind.empty())
+			report("c13/" + kind + kbase, "sent " + show(ex) + " delivered " + show(rx.got) + " after the events [" + histstr(hist) + "]" + (final ? " and quiescence" : "") +
+				"; wire(" + str(len) + ")=" + hex(w.bytes, 160), C.id + "/" + histstr(hist));
+		return kind.empty();
+	};
+	auto key_of = [&](Rx<AIO> &rx, size_t off) { Hs h; h.u(rx.state(true)), h.u(off); return h.fin(); };
+	{
+		Rx<AIO> rx(2, m, sched, &ex);
+		seen.insert(key_of(rx, 0));
+		Node n0; n0.off = 0;
+		frontier.push_back(n0);
+	}
+	while (!frontier.empty())
+	{
+		if (R->out_of_time()) { complete = false; break; }
+		Node nd = frontier.front();
+		frontier.pop_front();
+		maxhist = std::max<uint64_t>(maxhist, nd.hist.size());
+		for (size_t ev = 0; ev <= len - nd.off; ev++)
+		{
+			Rx<AIO> rx(2, m, sched, &ex);
+			size_t off = 0;
+			for (size_t i = 0; i < nd.hist.size(); i++)
+			{
+				if (nd.hist[i]) rx.relay(0, w.bytes.data() + off, nd.hist[i]), off += nd.hist[i];
+				rx.poll_once();
+			}
+			if (off != nd.off) die("allfrag: replay diverged");
+			if (ev) rx.relay(0, w.bytes.data() + off, ev), off += ev;
+			rx.poll_once();
+			transitions++;
+			R->ok(!DUP);
+			std::vector<uint32_t> h2(nd.hist);
+			h2.push_back((uint32_t)ev);
+			bool fine = judge(rx, h2, false);
+			if (!seen.insert(key_of(rx, off)).second || !fine) continue;
+			if (off == len)
+			{
+				// only Receive calls are left: a deterministic tail
+				rx.quiesce();
+				judge(rx, h2, true);
+				terminals++;
+				continue;
+			}
+			Node nn; nn.hist = h2, nn.off = off;
+			frontier.push_back(nn);
+		}
+	}
+	TOTAL_STATES += seen.size(), TOTAL_TRANS += transitions;
+	R->counters["allfrag_states"] += seen.size(), R->counters["allfrag_transitions"] += transitions, R->counters["allfrag_terminal_states"] += terminals;
+	if (!complete) R->counters["allfrag_cells_incomplete"]++, R->caps.insert("allfrag cell " + C.id + " stopped at the deadline");
+	else R->counters["allfrag_cells_complete"]++;
+	R->sample(C.id, "sent " + show(ex) + " wire " + str(len) + " octets: " + str(seen.size()) + " states, " + str(transitions) + " transitions, " + str(terminals) +
+		" terminal states judged after quiescence, longest shortest history " + str(maxhist) + " events, complete=" + str(complete ? 1 : 0));
+}
+
+template<class AIO> static void add_allfrag_cells(const Mode *modes, size_t nmodes, bool thorough)
+{
+	for (size_t mi = 0; mi < nmodes; mi++)
+	{
+		const Mode m = modes[mi];
+		struct Ex { const char *name; Exchange e; bool quick; bool allsched; };
+		std::vector<Ex> exs;
+		{ Ex x; x.name = "v0"; x.e = singles({ "0" }); x.quick = true, x.allsched = true; exs.push_back(x); }
+		{ Ex x; x.name = "vB"; x.e = singles({ V_B }); x.quick = true, x.allsched = false; exs.push_back(x); }
+		{ Ex x; x.name = "vD"; x.e = singles({ V_D }); x.quick = false, x.allsched = false; exs.push_back(x); }
+		{ Ex x; x.name = "s2"; x.e = singles({ "61", V_D }); x.quick = true, x.allsched = false; exs.push_back(x); }
+		{ Ex x; x.name = "s2a"; x.e = singles({ "0", V_B }); x.quick = false, x.allsched = false; exs.push_back(x); }
+		{ Ex x; x.name = "s3"; x.e = singles({ "0", "62", "1" }); x.quick = true, x.allsched = false; exs.push_back(x); }
+		{ Ex x; x.name = "s3a"; x.e = singles({ V_D, "1", V_B }); x.quick = false, x.allsched = false; exs.push_back(x); }
+		{ Ex x; x.name = "a2"; x.e = Exchange(1, arr({ "0", V_D })); x.quick = true, x.allsched = false; exs.push_back(x); }
+		{ Ex x; x.name = "a12"; x.e = Exchange(1, arr({ V_D })); x.e.push_back(arr({ "62", "0" })); x.quick = false, x.allsched = false; exs.push_back(x); }
+		for (size_t xi = 0; xi < exs.size(); xi++)
+		{
+			if (!thorough && !exs[xi].quick) continue;
+			WireImg w;
+			build_wire<AIO>(2, 0, m, exs[xi].e, 40 + xi, w);
+			// the state space is quadratic and the transition count cubic in the wire length (octets waiting in the pipe are a
+			// dimension of their own): the quick tier keeps the wire images of at most 200 octets
+			if (!thorough && w.bytes.size() > 200) continue;
+			for (size_t sched = 1; sched <= 3; sched++)
+			{
+				if (sched != aiounicast::aio_scheduler_roundrobin && !(exs[xi].allsched && thorough)) continue;
+				Cell C;
+				C.id = std::string("f/") + Tr<AIO>::name() + "/" + m.name + "/" + exs[xi].name + "/" + SCHED_NAME[sched];
+				double L = (double)w.bytes.size();
+				C.cost = L * L * L / 40;
+				Exchange ex = exs[xi].e;
+				C.run = [m, sched, ex, w](const Cell &c) { allfrag_cell<AIO>(c, m, sched, ex, w); };
+				cells.push_back(C);
+			}
+		}
+	}
+}
+
 // ---------------------------------------------------------------- part n3: two links into one receiver
 template<class AIO> static void n3_cell(const Cell &C, const Mode &m, size_t sched, const std::string v[2], const WireImg w[2])
 {
@@ -1131,6 +1261,7 @@ int main(int argc, char **argv)
 	std::string part = A.get("part", "all");
 	const size_t NS = sizeof(MODES_SELECT) / sizeof(Mode), NN = sizeof(MODES_NONBLOCK) / sizeof(Mode);
 	if (part == "frag" || part == "all") add_frag_cells<aiounicast_select>(MODES_SELECT, NS, thorough), add_frag_cells<aiounicast_nonblock>(MODES_NONBLOCK, NN, thorough);
+	if (part == "allfrag" || part == "all") add_allfrag_cells<aiounicast_select>(MODES_SELECT, NS, thorough), add_allfrag_cells<aiounicast_nonblock>(MODES_NONBLOCK, NN, thorough);
 	if (part == "n3" || part == "all") add_n3_cells<aiounicast_select>(MODES_SELECT, NS, thorough), add_n3_cells<aiounicast_nonblock>(MODES_NONBLOCK, NN, thorough);
 	if (part == "fault" || part == "all") add_fault_cells<aiounicast_select>(MODES_SELECT, NS, thorough), add_fault_cells<aiounicast_nonblock>(MODES_NONBLOCK, NN, thorough);
 	if (part == "wenv" || part == "all") add_wenv_cells<aiounicast_select>(MODES_SELECT, NS, thorough), add_wenv_cells<aiounicast_nonblock>(MODES_NONBLOCK, NN, thorough);
@@ -1169,6 +1300,7 @@ int main(int argc, char **argv)
 	for (size_t i = 0; i < cells.size(); i++) if (owner[i] == A.shard) R->counters["cells"]++;
 	R->bound = thorough ? "all single cuts and all pairs of cuts (max-size value: single cuts); faults at every offset of a 3-message wire"
 		: "all single cuts; pairs for 1-2 message exchanges; faults at every offset of a 2-message wire";
+	if (part == "allfrag") R->bound = "ALL fragmentations and poll interleavings of the wire image of each listed exchange (explicit-state search over the real receiver, complete unless a cap is listed)";
 	if (part == "wenv") R->bound = "every single and every ordered pair of write-environment deviations at every write call, exchanges of 1 and 2 integers";
 	R->finish();
 	return 0;
